@@ -732,6 +732,131 @@ func wholeOpStress(c *vlib.Ctx, ct ctype, r *vlib.Rand, label string, writers, p
 	c.DistinctStr(fmt.Sprintf("whole|%s|%d|%d|%s", ct.name, writers, gomax, label))
 }
 
+// ---- monitor 1c: no public method blocks for ever next to writers ------------------------------
+//
+// Every exported method that is not a point operation (sort, key array, to-string, enumerators,
+// contains-value, ...) is called in a loop by one goroutine while writers issue the point
+// operations on the same instance. Judged: after the writers are done nobody holds the lock, so
+// a caller that is still parked in sync.Mutex.Lock inside golib (seen in two goroutine dumps
+// with no progress between them) can never be released — e.g. a method declared on a value
+// receiver that locks a copy of the mutex taken while a writer held it.
+
+//go:noinline
+func wholeCaller(done *sync.WaitGroup, stop *int32, calls *int64, step func()) {
+	defer done.Done()
+	for atomic.LoadInt32(stop) == 0 {
+		step()
+		atomic.AddInt64(calls, 1)
+		runtime.Gosched()
+	}
+}
+
+func wholeOpBlocking(c *vlib.Ctx, ct ctype, r *vlib.Rand, label string, writers, perWriter, gomax int) {
+	old := runtime.GOMAXPROCS(gomax)
+	defer runtime.GOMAXPROCS(old)
+	inst := reflect.ValueOf(ct.mk())
+	var points, whole []opm
+	typ := inst.Type()
+	for i := 0; i < typ.NumMethod(); i++ {
+		n := typ.Method(i).Name
+		isReq := strings.HasPrefix(ct.name, "Request")
+		switch {
+		case n == "Get" && isReq:
+			continue // blocks by contract until a producer arrives (C11)
+		case n == "Remove" && ct.name == "LinkedList":
+			continue
+		case pointOps[n]:
+			points = append(points, opm{n, inst.Method(i)})
+		case strings.HasPrefix(n, "Set"):
+			continue // reconfigures the instance (bound, capacity, callbacks)
+		default:
+			whole = append(whole, opm{n, inst.Method(i)})
+		}
+	}
+	if len(whole) == 0 || len(points) == 0 {
+		return
+	}
+	var wg sync.WaitGroup
+	var progress int64
+	for w := 0; w < writers; w++ {
+		wg.Add(1)
+		wr := r.Fork(fmt.Sprint("writer", w))
+		go stressWorker(&wg, &progress, func(i int) {
+			op := points[wr.Intn(len(points))]
+			if op.name == "Clear" && wr.Intn(8) != 0 {
+				return
+			}
+			callRecovered(op.m, wr, 6, inst)
+		}, perWriter)
+	}
+	var bg sync.WaitGroup
+	var stop int32
+	var calls int64
+	bgr := r.Fork("whole")
+	names := map[string]int{}
+	var cur atomic.Value
+	cur.Store("")
+	bg.Add(1)
+	go wholeCaller(&bg, &stop, &calls, func() {
+		op := whole[bgr.Intn(len(whole))]
+		cur.Store(op.name)
+		callRecovered(op.m, bgr, 6, inst)
+		names[op.name]++
+	})
+	tname := strings.SplitN(ct.name, "(", 2)[0]
+	verdict, stack := waitOrDeadlock(&wg, &progress, "main.stressWorker")
+	atomic.StoreInt32(&stop, 1)
+	if verdict != "done" {
+		if verdict == "deadlock" {
+			c.Fail(tname+":deadlock-under-concurrency", "writers are parked on the structure's own mutex while a whole-structure operation runs: the run can never finish",
+				map[string]interface{}{"type": ct.name, "goroutine": stack, "method_in_flight": cur.Load()})
+		} else {
+			c.Inconclusive(label, "writers made no progress for 5 minutes but are not parked on a mutex")
+		}
+		return
+	}
+	// writers are done: the instance is quiescent except for the one whole-structure caller
+	bgDone := make(chan struct{})
+	go func() { bg.Wait(); close(bgDone) }()
+	parkedSeen := 0
+	var lastCalls int64 = -1
+	for waited := 0; ; waited++ {
+		select {
+		case <-bgDone:
+			waited = -1
+		case <-time.After(500 * time.Millisecond):
+		}
+		if waited < 0 {
+			break
+		}
+		total, parked, st := markerGoroutines("main.wholeCaller")
+		n := atomic.LoadInt64(&calls)
+		if total == 1 && parked == 1 && n == lastCalls {
+			parkedSeen++
+		} else {
+			parkedSeen = 0
+		}
+		lastCalls = n
+		if parkedSeen >= 2 {
+			m, _ := cur.Load().(string)
+			c.Fail(tname+"."+m+":blocks-forever-under-concurrency",
+				fmt.Sprintf("%s.%s() called while other goroutines were mutating the instance is still parked on a mutex inside golib although every other goroutine has finished: nobody can release it", tname, m),
+				map[string]interface{}{"type": ct.name, "method": m, "writers": writers, "goroutine": st})
+			return
+		}
+		if waited > 240 {
+			c.Inconclusive(label, "whole-structure caller did not return within 120 s and is not parked on a mutex")
+			return
+		}
+	}
+	c.Count("whole_blocking_runs", 1)
+	c.Count("whole_blocking_calls", atomic.LoadInt64(&calls))
+	for n := range names {
+		c.SetAdd("whole_structure_methods_called_next_to_writers", tname+"."+n)
+	}
+	c.DistinctStr(fmt.Sprintf("wholeblock|%s|%d|%d|%s", ct.name, writers, gomax, label))
+}
+
 func main() {
 	c := vlib.Start("C10")
 	isRace := c.Flavour == "race"
@@ -765,6 +890,19 @@ func main() {
 		ct := ctypes[i%len(ctypes)]
 		wholeOpStress(c, ct, r, fmt.Sprint("whole-ops#", i), r.Range(2, 6), c.N(1500, 6000), []int{4, 16, 2, 8}[(i/len(ctypes))%4])
 	})
+
+	// monitor 1c (plain flavour, same reason)
+	breps := c.N(2, 12)
+	if isRace {
+		breps = 0
+	}
+	c.Cases("whole-blocking", len(ctypes)*breps, func(i int, r *vlib.Rand) {
+		ct := ctypes[i%len(ctypes)]
+		wholeOpBlocking(c, ct, r, fmt.Sprint("whole-blocking#", i), r.Range(2, 6), c.N(3000, 12000), []int{16, 4, 8, 2}[(i/len(ctypes))%4])
+	})
+	if !isRace {
+		c.Floor("whole_blocking_runs", int64(len(ctypes)*breps/c.NShards/2), c.Counter("whole_blocking_runs"))
+	}
 
 	// monitor 2
 	runLinearizability(c)
